@@ -9,11 +9,91 @@ def envBytes (t ch : Nat) (payload : Bytes) : Bytes :=
   UInt8.ofNat t :: (beN 2 ch ++ beN 4 payload.length ++ payload ++ [Frame.frameEnd])
 
 theorem envBytes_length (t ch : Nat) (payload : Bytes) : (envBytes t ch payload).length = payload.length + 8 := by
-  sorry
+  simp [envBytes]; omega
 
 theorem envelope_ok (t ch : Nat) (hc : ch < 65536) (payload : Bytes) (hl : payload.length < 2 ^ 32) :
     Frame.envelope t (.int ch) payload = .ok (envBytes t ch payload) := by
-  sorry
+  have h1 : packU16 (ch : Int) = .ok (beN 2 ch) := packInt_nat 2 65535 ch (by omega) (by omega)
+  have h2 : packU32 (payload.length : Int) = .ok (beN 4 payload.length) :=
+    packInt_nat 4 4294967295 _ (by omega) (by omega)
+  simp only [Frame.envelope, PyVal.asInt?, h1, h2, bind, Except.bind, pure, Except.pure, envBytes]
+
+/-- the type dispatch at the end of `Frame.unmarshal` -/
+def dispatch (cat : Cat) (ft ch sz : Nat) (fd : Bytes) : R (Nat × Nat × AnyFrame) :=
+  if ft = 1 then (Frame.methodUnmarshal cat fd >>= fun f => pure (sz + 8, ch, f))
+  else if ft = 2 then (Frame.mapCaught (Frame.headerUnmarshal cat fd) >>= fun f => pure (sz + 8, ch, f))
+  else if ft = 3 then .ok (sz + 8, ch, .body (.bytes fd))
+  else .error .unmarshaling
+
+theorem unmarshal_general (cat : Cat) (bs : Bytes) (h4 : bs.take 4 ≠ Frame.amqp) (h7 : 7 ≤ bs.length)
+    (hsz : unbe (slice bs 3 7) ≠ 0) (hlen : unbe (slice bs 3 7) + 8 ≤ bs.length)
+    (hend : bs[unbe (slice bs 3 7) + 7]? = some Frame.frameEnd) :
+    Frame.unmarshal cat bs =
+      dispatch cat (unbe (slice bs 0 1)) (unbe (slice bs 1 3)) (unbe (slice bs 3 7))
+        (slice bs 7 (unbe (slice bs 3 7) + 7)) := by
+  unfold Frame.unmarshal
+  rw [if_neg h4]
+  have h7' : ¬ bs.length < 7 := by omega
+  simp only [Frame.frameParts, if_neg h7']
+  generalize unbe (slice bs 3 7) = sz at *
+  have e1 : sz + 8 - 1 = sz + 7 := by omega
+  have e2 : 7 + sz + 1 = sz + 8 := by omega
+  have c1 : ¬ (unbe (slice bs 0 1) = 8 ∧ sz = 0) := fun h => hsz h.2
+  have c3 : ¬ (sz + 8 > bs.length) := by omega
+  have c4 : ¬ ((bs.drop (sz + 7)).head? ≠ some Frame.frameEnd) := by
+    rw [List.head?_drop]; simp [hend]
+  simp only [e1, e2, if_neg c1, if_neg hsz, if_neg c3, if_neg c4, dispatch]
+
+/-- the 7-byte frame header -/
+def hdrBytes (t ch n : Nat) : Bytes := UInt8.ofNat t :: (beN 2 ch ++ beN 4 n)
+
+@[simp] theorem hdrBytes_length (t ch n : Nat) : (hdrBytes t ch n).length = 7 := by
+  simp [hdrBytes]
+
+theorem envBytes_append (t ch : Nat) (payload rest : Bytes) :
+    envBytes t ch payload ++ rest = hdrBytes t ch payload.length ++ (payload ++ Frame.frameEnd :: rest) := by
+  simp [envBytes, hdrBytes]
+
+theorem slice_hdr_type (t ch n : Nat) (tail : Bytes) : slice (hdrBytes t ch n ++ tail) 0 1 = [UInt8.ofNat t] := by
+  simp [slice, hdrBytes]
+
+theorem slice_hdr_chan (t ch n : Nat) (tail : Bytes) : slice (hdrBytes t ch n ++ tail) 1 3 = beN 2 ch := by
+  simp [slice, hdrBytes]
+
+theorem slice_hdr_size (t ch n : Nat) (tail : Bytes) : slice (hdrBytes t ch n ++ tail) 3 7 = beN 4 n := by
+  have : hdrBytes t ch n ++ tail = (UInt8.ofNat t :: beN 2 ch) ++ beN 4 n ++ tail := by simp [hdrBytes]
+  rw [this]
+  exact slice_append_mid (UInt8.ofNat t :: beN 2 ch) (beN 4 n) tail
+
+theorem unbe_single (b : UInt8) : unbe [b] = b.toNat := by simp [unbe]
+
+theorem take4_hdr_ne (t ch n : Nat) (ht : t % 256 ≠ 65) (tail : Bytes) :
+    (hdrBytes t ch n ++ tail).take 4 ≠ Frame.amqp := by
+  intro h
+  simp only [hdrBytes, List.cons_append, Frame.amqp, List.take_succ_cons, List.cons.injEq] at h
+  apply ht
+  have := congrArg UInt8.toNat h.1
+  simpa [UInt8.toNat_ofNat'] using this
+
+theorem unmarshal_hdr (cat : Cat) (t ch : Nat) (ht : t < 256) (ht' : t ≠ 65) (hc : ch < 65536)
+    (payload : Bytes) (hne : payload ≠ []) (hl : payload.length < 2 ^ 32) (rest : Bytes) :
+    Frame.unmarshal cat (envBytes t ch payload ++ rest) = dispatch cat t ch payload.length payload := by
+  rw [envBytes_append]
+  have hsz : unbe (slice (hdrBytes t ch payload.length ++ (payload ++ Frame.frameEnd :: rest)) 3 7) = payload.length := by
+    rw [slice_hdr_size, unbe_beN_of_lt _ _ (by omega)]
+  have hpos : payload.length ≠ 0 := by
+    intro h; exact hne (List.length_eq_zero_iff.1 h)
+  rw [unmarshal_general]
+  · rw [hsz, slice_hdr_type, slice_hdr_chan, unbe_single, unbe_beN_of_lt _ _ (by omega)]
+    congr 1
+    · simp [UInt8.toNat_ofNat']; omega
+    · have := slice_append_mid (hdrBytes t ch payload.length) payload (Frame.frameEnd :: rest)
+      simpa [Nat.add_comm] using this
+  · exact take4_hdr_ne _ _ _ (by omega) _
+  · simp
+  · rw [hsz]; exact hpos
+  · rw [hsz]; simp; omega
+  · rw [hsz]; simp [List.getElem?_append_right]
 
 /-- decoding an enveloped payload followed by anything dispatches on the type octet with exactly
 the payload -/
@@ -24,6 +104,7 @@ theorem unmarshal_envelope (cat : Cat) (t : Nat) (ht : t = 1 ∨ t = 2 ∨ t = 3
       else if t = 2 then
         (Frame.mapCaught (Frame.headerUnmarshal cat payload) >>= fun f => pure (payload.length + 8, ch, f))
       else .ok (payload.length + 8, ch, .body (.bytes payload)) := by
-  sorry
+  rw [unmarshal_hdr cat t ch (by omega) (by omega) hc payload hne hl rest, dispatch]
+  rcases ht with rfl | rfl | rfl <;> simp
 
 end Pamqp.Proofs
